@@ -229,6 +229,8 @@ func setReflect(t *TSpec, rv reflect.Value, v Val) {
 		for i, f := range u.Fields {
 			setReflect(f.Type, rv.Field(i), v.L[i])
 		}
+	case KUnsup:
+		// values of unsupported kinds only occur in skipped fields; left zero
 	default:
 		panic("ToReflect: unsupported kind " + string(u.Kind))
 	}
@@ -339,6 +341,9 @@ func FromReflect(t *TSpec, rv reflect.Value) Val {
 		}
 		return Val{L: l}
 	}
+	if u.Kind == KUnsup {
+		return Val{}
+	}
 	panic("FromReflect: unsupported kind " + string(u.Kind))
 }
 
@@ -404,6 +409,8 @@ func (v Val) writeKey(t *TSpec, b *strings.Builder) {
 			b.WriteString(";")
 		}
 		b.WriteString(")")
+	case KUnsup:
+		b.WriteString("#")
 	default:
 		if u.Kind.IsNull() {
 			b.WriteString("?")
@@ -513,6 +520,8 @@ func Diff(t *TSpec, a, b Val) string {
 				return "." + f.Name + d
 			}
 		}
+	case KUnsup:
+		return ""
 	default:
 		if u.Kind.IsNull() {
 			if d := Diff(nullInner(u.Kind), *a.P, *b.P); d != "" {
